@@ -6,6 +6,7 @@ CONSTANTS
   CheckQuorum = FALSE
   Mut = ""
   Collapsed = TRUE
+  MaxAppEnts = 8
   MaxTerm = 3
   MaxLog = 2
   MaxElect = 2
